@@ -114,15 +114,12 @@ let show_islot (sl : islot) : string =
   let s = sl.scur in
   if int_of_nat s.igen = 0 then "-" else
   "e" ^ b01 s.iex ^ "a" ^ b01 s.iappr ^ "f" ^ b01 s.iinfl ^ "c" ^ b01 s.icreated ^ "x" ^ b01 s.iclosing ^ "b" ^ b01 (s.ib4 <> None) ^ b01 s.ib6
-let run_ipoe (rep : bool) (toks : string list) : string =
+let run_ipoe (rep : bool) (implline : string) (toks : string list) : string =
   match toks with
   | p4s :: p6s :: evs ->
     let st = ref (iinit (nat_of_int (int_of_string p4s)) (nat_of_int (int_of_string p6s))) in
     let mon = ref imon0 and viol = ref false in
-    let steps = List.map (fun tok ->
-      match ievent_of tok with
-      | None -> "badev:" ^ tok
-      | Some e ->
+    let one (e : ievent) : (owner * iout) list =
         let cur = (match e with
           | IeAAA (i, RCur, _) -> (match List.nth_opt !st.isl (int_of_nat i) with Some sl -> (i, sl.scur.igen) | None -> (i, O))
           | _ -> (O, O)) in
@@ -135,23 +132,50 @@ let run_ipoe (rep : bool) (toks : string list) : string =
         (match imon_outs outs (imon_in e cur !mon) with
          | Some m -> mon := m
          | None -> viol := true; mon := imon_in e cur !mon);
-        (* an address may leave a pool only when some accepted attempt exists *)
         if (List.length st'.p4.pfree < fst free_before || List.length st'.p6.pfree < snd free_before) && !mon.macc = [] then viol := true;
-        (* reject-clean: after a reject/error that was applied, the attempt holds nothing *)
         (match e with
          | IeAAA (i, RCur, false) when existed ->
            (match List.nth_opt st'.isl (int_of_nat i) with
             | Some sl when not sl.scur.iex && not (holds_nothing_i st' cur sl.scur) -> viol := true
             | _ -> ())
          | _ -> ());
+        outs in
+    let show outs =
         let os = List.sort compare (List.map (fun ((i, g), o) ->
           string_of_int (int_of_nat i) ^ "." ^ string_of_int (int_of_nat g) ^ show_iout o) outs) in
         let is_life t = String.length t >= 5 && String.sub t (String.length t - 5) 5 = "lifeA" in
         let rec dedup = function a :: (b :: _ as r) when a = b && is_life a -> dedup r | a :: r -> a :: dedup r | [] -> [] in
         let os = dedup os in
-        String.concat "," os ^ "|" ^ String.concat "," (List.map show_islot st'.isl) ^ "|" ^
-        string_of_int (List.length st'.p4.pfree) ^ "/" ^ string_of_int (List.length st'.p6.pfree)) evs in
-    String.concat " ; " steps ^ " ; MON:" ^ (if !viol then "VIOLATION" else "ok")
+        String.concat "," os ^ "|" ^ String.concat "," (List.map show_islot !st.isl) ^ "|" ^
+        string_of_int (List.length !st.p4.pfree) ^ "/" ^ string_of_int (List.length !st.p6.pfree) in
+    (* Outside the modelled domain: when ResolveV6 fails (IA_NA pool exhausted, or the context's address was taken
+       by another session after a release) the local DHCPv6 provider allocates on its own, bypassing the registry.
+       The model marks that step EXH6; from there on the implementation's own text is echoed (its monitor verdict,
+       computed by the harness on the real trace, stays in the line), i.e. the rest of the case is not compared. *)
+    let impl_steps = Array.of_list (Str.split (Str.regexp_string " ; ") implline) in
+    let giveup = ref false in
+    let idx = ref (-1) in
+    let steps = List.map (fun tok ->
+      incr idx;
+      let echo () = if !idx < Array.length impl_steps then impl_steps.(!idx) else "EXH6" in
+      if !giveup then echo () else
+      let has_exh l = List.exists (fun (_, o) -> o = IExh6) l in
+      let show outs = if has_exh outs then (giveup := true; echo ()) else show outs in
+      (* P:<e1>&<e2> — the implementation runs e2 while e1 is held inside the dataplane add; handlers are atomic
+         in the model (the test-and-clear of AAAInFlight is one critical section), so this is e1 then e2 *)
+      if String.length tok > 2 && String.sub tok 0 2 = "P:" then
+        (match String.split_on_char '&' (String.sub tok 2 (String.length tok - 2)) with
+         | [a; b] -> (match ievent_of a, ievent_of b with
+             | Some ea, Some eb -> let o1 = one ea in let o2 = one eb in show (o1 @ o2)
+             | _ -> "badev:" ^ tok)
+         | _ -> "badev:" ^ tok)
+      else
+      match ievent_of tok with
+      | None -> "badev:" ^ tok
+      | Some e -> show (one e)) evs in
+    let monres = if !giveup && Array.length impl_steps > 0 then impl_steps.(Array.length impl_steps - 1)
+                 else "MON:" ^ (if !viol then "VIOLATION" else "ok") in
+    String.concat " ; " steps ^ " ; " ^ monres
   | _ -> "badcase"
 
 (* the FSM table flavour (pkg/ppp/fsm.go as it is, or with the RFC 1661 cells repaired) is not constrained by
@@ -179,5 +203,5 @@ let () =
                                | "l2tp" -> "osvbng:events:aaa:response:l2tp" | _ -> "?") in
       Printf.printf "%s %s %s ids=ok %s\n" topic (if aaa_allowed fb srv then "allow" else "deny")
         (match radius_decide fb srv with VError -> "1" | _ -> "0") (if fb then "asked0" else "asked1")
-    | "ipoe" :: rest -> print_endline (try run_ipoe rep rest with e -> "modelerr:" ^ Printexc.to_string e)
+    | "ipoec" :: rest | "ipoe" :: rest -> print_endline (try run_ipoe rep il rest with e -> "modelerr:" ^ Printexc.to_string e)
     | _ -> print_endline "badline") lines
